@@ -143,20 +143,36 @@ Section InstP.
                      end
                    end).
 
+  Definition chk_G := negb (raw_eqb (praw c (pG c)) None).
+
+  (* every key d in [1, n-1] and hash residue z in [0, n-1] has a nonce j in [1, n-1] with non-zero r and s *)
+  Definition good_nonce_b (d z j : Z) : bool :=
+    match praw c (psmul c j (pG c)) with
+    | None => false
+    | Some (x, _) => negb (x mod n =? 0) && negb ((z + (x mod n) * d) mod n =? 0)
+    end.
+  Definition good_nonce_ok : bool :=
+    allz n (fun d => (d =? 0) || allz n (fun z => existsb (fun j => (1 <=? j) && good_nonce_b d z j) (zrange n))).
+
   Definition curve_ok : bool :=
-    is_prime_b n && chk_assoc && chk_comm && chk_O_l && chk_neg_r && chk_smul_1 && chk_smul_add && chk_smul_mul
+    chk_G && is_prime_b n && chk_assoc && chk_comm && chk_O_l && chk_neg_r && chk_smul_1 && chk_smul_add && chk_smul_mul
     && chk_neg_x && chk_lift_sound && chk_lift_complete.
 
   Hypothesis OK : curve_ok = true.
 
   Lemma ok_parts :
-    is_prime_b n = true /\ chk_assoc = true /\ chk_comm = true /\ chk_O_l = true /\ chk_neg_r = true /\
+    chk_G = true /\ is_prime_b n = true /\ chk_assoc = true /\ chk_comm = true /\ chk_O_l = true /\ chk_neg_r = true /\
     chk_smul_1 = true /\ chk_smul_add = true /\ chk_smul_mul = true /\ chk_neg_x = true /\
     chk_lift_sound = true /\ chk_lift_complete = true.
   Proof. pose proof OK as T. unfold curve_ok in T. rewrite !andb_true_iff in T. tauto. Qed.
 
   Lemma n_prime : prime n.
   Proof. apply is_prime_b_prime. apply ok_parts. Qed.
+
+  Lemma inst_G_nonzero : pG c <> pO c.
+  Proof.
+    destruct ok_parts as (HG & _). intros E. unfold chk_G in HG. rewrite E in HG. cbn in HG. discriminate.
+  Qed.
 
   Lemma n_pos : 0 < n.
   Proof. pose proof (prime_ge_2 n n_prime). lia. Qed.
@@ -178,7 +194,7 @@ Section InstP.
 
   Theorem inst_group_laws : group_laws (pt c) (padd c) (pneg c) (pO c) (psmul c) n (pcoords c).
   Proof.
-    destruct ok_parts as (Hp & Hassoc & Hcomm & HOl & Hnegr & Hs1 & Hsadd & Hsmul & Hnegx & Hls & Hlc).
+    destruct ok_parts as (HG & Hp & Hassoc & Hcomm & HOl & Hnegr & Hs1 & Hsadd & Hsmul & Hnegx & Hls & Hlc).
     pose proof n_pos as Hn.
     constructor.
     - intros P Q R. apply pt_eq. rewrite !praw_padd. apply raw_eqb_eq.
@@ -201,6 +217,7 @@ Section InstP.
       apply (all1_spec _ H2 P).
     - intros P. apply pt_eq. rewrite praw_psmul. unfold csmul, rsmul. fold n. rewrite Z_mod_same_full. reflexivity.
     - reflexivity.
+    - intros P Hc. apply pt_eq. exact Hc.
     - intros P x y Hc. unfold pcoords in Hc. pose proof (praw_on P) as Ho. rewrite Hc in Ho.
       unfold on_curve in Ho. apply andb_true_iff in Ho. destruct Ho as [Ho _]. cbn in Ho. clear - Ho. lia.
     - intros P x y Hc. unfold pcoords in *. rewrite praw_pneg.
@@ -211,7 +228,7 @@ Section InstP.
 
   Theorem inst_lift_laws : lift_laws (pt c) (pcoords c) (plift_x c) (x_canonical c).
   Proof.
-    destruct ok_parts as (Hp & Hassoc & Hcomm & HOl & Hnegr & Hs1 & Hsadd & Hsmul & Hnegx & Hls & Hlc).
+    destruct ok_parts as (HG & Hp & Hassoc & Hcomm & HOl & Hnegr & Hs1 & Hsadd & Hsmul & Hnegx & Hls & Hlc).
     constructor.
     - intros x P0 P1 Hl Hx. unfold x_canonical in Hx. fold p in Hx.
       pose proof (allz_spec _ _ Hls x Hx) as H1.
@@ -219,11 +236,25 @@ Section InstP.
       destruct (praw c P0) as [[x0 y0]|]; [|discriminate]. destruct (praw c P1) as [[x1 y1]|]; [|discriminate].
       assert (x0 = x /\ x1 = x /\ Z.odd y0 = false /\ Z.odd y1 = true) as [-> [-> [E0 E1]]] by (clear - H1; lia).
       split; eexists; split; reflexivity || assumption.
+    - intros P x y Hc. unfold pcoords in Hc. pose proof (praw_on P) as Ho. rewrite Hc in Ho.
+      unfold on_curve in Ho. apply andb_true_iff in Ho. destruct Ho as [Ho _]. cbn in Ho. fold p in Ho.
+      unfold x_canonical. fold p. clear - Ho. lia.
     - intros P x y Hc. unfold pcoords in Hc.
       pose proof (all1_spec _ Hlc P) as H1.
       cbv beta in H1. rewrite Hc in H1.
       destruct (plift_x c x) as [[P0 P1]|]; [|discriminate].
       exists P0, P1. split; [reflexivity|]. apply pt_eq. rewrite Hc. apply raw_eqb_eq. exact H1.
+  Qed.
+
+  Lemma good_nonce_ok_spec : good_nonce_ok = true ->
+    forall d z, 1 <= d < n -> 0 <= z < n -> exists j, 1 <= j < n /\ good_nonce_b d z j = true.
+  Proof.
+    intros H d z Hd Hz. pose proof (allz_spec _ _ H d ltac:(lia)) as H1. cbv beta in H1.
+    apply orb_true_iff in H1. destruct H1 as [H1|H1]; [lia|].
+    pose proof (allz_spec _ _ H1 z Hz) as H2. cbv beta in H2. apply existsb_exists in H2.
+    destruct H2 as [j [Hin Hj]]. apply andb_true_iff in Hj. destruct Hj as [Hj1 Hj2].
+    exists j. split; [|exact Hj2].
+    unfold zrange in Hin. apply in_map_iff in Hin. destruct Hin as [i [Hi Hs]]. apply in_seq in Hs. lia.
   Qed.
 End InstP.
 
@@ -237,3 +268,6 @@ Lemma toy13_ok : curve_ok toy13 = true. Proof. vm_cast_no_check (eq_refl true). 
 Lemma toy11_ok : curve_ok toy11 = true. Proof. vm_cast_no_check (eq_refl true). Qed.
 Lemma toy19_ok : curve_ok toy19 = true. Proof. vm_cast_no_check (eq_refl true). Qed.
 Lemma toy23_ok : curve_ok toy23 = true. Proof. vm_cast_no_check (eq_refl true). Qed.
+
+Lemma toy13_good_nonces : good_nonce_ok toy13 = true. Proof. vm_cast_no_check (eq_refl true). Qed.
+Lemma toy11_good_nonces : good_nonce_ok toy11 = true. Proof. vm_cast_no_check (eq_refl true). Qed.
